@@ -277,7 +277,8 @@ impl Sectors {
             Err(e) => e is Io,
         }),
         //# C13.get_conservation
-        sector_in(old(self).total(old(r)), old(self).sz(), id as int) && res is Ok ==> final(self).total(final(r)) == old(self).total(old(r)),
+        // unless I/O fails the sector space (loaded bytes + bytes the reader still holds) is what it was: nothing is lost, no padding added
+        res is Ok || (res matches Err(e) && e is Invalid) ==> final(self).total(final(r)) == old(self).total(old(r)),
         //# C13,C20.get_err_is_io_failure_or_beyond_eof
         (res matches Err(e) ==> (e is Io && (*final(r)).io_failed())
             || (e is Invalid && id as int * old(self).sz() > old(self).total(old(r)).len() && (*final(r)).io_failed() == (*old(r)).io_failed()))
@@ -296,13 +297,19 @@ impl Sectors {
             assert(0 <= id as int * self.size as int <= 0xFFFF_FFFF * 4096) by (nonlinear_arith) requires 0 <= id as int <= 0xFFFF_FFFF, 0 <= self.size as int <= 4096;
         }
 //@@ before /self\.data\.resize/
-            //# C06.alloc_bound_resize
-            assert(alloc_le(end as int, total.len() + self.size)) by { reveal(alloc_le); }
+                //# C06.alloc_bound_resize
+                // the buffer never exceeds what the reader has supplied so far by more than one sector
+                assert(alloc_le(stop as int, total.len() + self.size)) by {
+                    reveal(alloc_le);
+                    assert((self.data@.take(len as int) + (*r).rem()).len() == len + (*r).rem().len());
+                }
+                let ghost before = self.data@;
 //@@ loop 0
                 invariant
                     self.wf(), self.size == old(self).size,
-                    self.data@.len() == end,
-                    data0.len() <= len <= end,
+                    end == start + self.size,
+                    len <= self.data@.len() <= end,
+                    data0.len() <= len,
                     data0 == old(self).data@, total == old(self).total(old(r)),
                     self.data@.take(data0.len() as int) == data0,
                     self.data@.take(len as int) + (*r).rem() == total,
@@ -311,10 +318,15 @@ impl Sectors {
 //@@ before /let read = /
                 let ghost pre = self.data@;
                 let ghost rem0 = (*r).rem();
+                proof {
+                    assert(pre.len() == stop && len < stop <= end);
+                    assert(pre.take(len as int) =~= before.take(len as int));
+                    assert(pre.take(data0.len() as int) =~= before.take(data0.len() as int));
+                }
 //@@ before /if read == 0/
                 proof {
                     let n = read as int;
-                    assert(self.data@ =~= pre.take(len as int) + (rem0.take(n) + pre.subrange(len as int, end as int).skip(n)) + pre.skip(end as int));
+                    assert(self.data@ =~= pre.take(len as int) + (rem0.take(n) + pre.subrange(len as int, stop as int).skip(n)) + pre.skip(stop as int));
                     assert(self.data@.take(len + n) =~= pre.take(len as int) + rem0.take(n));
                     assert(rem0 =~= rem0.take(n) + rem0.skip(n));
                     assert(self.data@.take(len + n) + (*r).rem() =~= (pre.take(len as int) + rem0));
@@ -334,6 +346,13 @@ impl Sectors {
                         assert(self.size as int == old(self).sz());
                         assert(len < end);
                         assert(!sector_in(total, self.size as int, id as int));
+                    }
+//@@ before /if start > len/
+                    proof {
+                        //# C13.get_eof_buffer_is_input
+                        assert(self.data@ =~= total);
+                        assert(self.data@ + (*r).rem() =~= total);
+                        assert(self.data@.take(data0.len() as int) =~= data0);
                     }
 //@@ before /Ok\(&self/#1of2
         proof {
